@@ -425,7 +425,17 @@ func (fg *FunctionGenerator) GenerateCustom(ast parser2.AST, gc funcGen.Generato
 		}
 		l := tc.GetLine()
 		return func(st funcGen.Stack[Value], cs []Value) (Value, error) {
-			tryVal, tryErr := tryFunc(st, cs)
+			tryVal, tryErr := func() (v Value, err error) {
+				// a panic (e.g. in a host function or the stack overflow guard) is
+				// catchable like any other error
+				defer func() {
+					if rec := recover(); rec != nil {
+						v = nil
+						err = parser2.AnyToError(rec)
+					}
+				}()
+				return tryFunc(st, cs)
+			}()
 			if tryErr == nil {
 				return tryVal, nil
 			}
